@@ -81,28 +81,25 @@ def opModeHist : List String → String
     if outs.contains "bad" then "bad-op" else "ok " ++ "|".intercalate outs
   | _ => "bad-op"
 
-def hexChunks (n : Nat) : Nat → String → List String
-  | 0, _ => []
-  | fuel+1, s => if s.isEmpty then [] else (s.take (2 * n)).toString :: hexChunks n fuel (s.drop (2 * n)).toString
-
-/-- ms kind key iv ctr seg dir pad blocksize data : `encrypt_stream` / `decrypt_stream` = a feeder fed with the chunks
-that `read(block_size)` returns, then flushed; the first exception ends the call -/
+/-- ms kind key iv ctr seg dir pad blocksize data : `encrypt_stream` / `decrypt_stream` = `Modes.feedStream` (the theorems
+`stream_chunking_independent` / `stream_block_size_independent` of C16 are about this function) -/
 def opModeStream : List String → String
   | [kind, key, iv, ctr, seg, dir, pad, bs, data] =>
-    match bs.toNat? with
-    | none => "bad-op"
-    | some 0 => "bad-op"
-    | some n =>
-      let d := if data == "-" then "" else data
-      let steps := [s!"new,0,{kind},{key},{iv},{ctr},{seg}", s!"fnew,0,0,{dir},{pad}"] ++
-        (hexChunks n (d.length + 1) d).map (fun c => s!"feed,0,{c}") ++ ["feed,0,final"]
-      let (_, outs) := steps.foldl (fun (acc : MH × List String) s =>
-        let (st', o) := mhStep acc.1 (s.splitOn ",")
-        (st', acc.2 ++ [o])) ({}, [])
-      if outs.contains "bad" then "bad-op" else
-      match outs.find? (fun o => o.startsWith "err:") with
-      | some e => "err " ++ (e.drop 4).toString
-      | none => "ok " ++ (let r := String.join ((outs.drop 2).map (fun o => if o == "-" then "" else o)); if r.isEmpty then "-" else r)
+    match bs.toNat?, parseKind kind (seg.toNat?.getD 1), parseHex key, ctr.toNat?, parseHex (if data == "-" then "" else data) with
+    | some (n+1), some k, some kb, some c, some d =>
+      let ivo := if iv == "none" then some none else (parseHex iv).map some
+      match ivo with
+      | none => "bad-op"
+      | some ivv =>
+        match Modes.new aesCipher k kb ivv c with
+        | .error e => "err " ++ e.name
+        | .ok m =>
+          let f : Feeder aesCipher := { mode := m, dec := dir == "dec", padding := if pad == "none" then .none else .default,
+                                        buffer := some [] }
+          match Modes.feedStream aesCipher f (n+1) d with
+          | .error e => "err " ++ e.name
+          | .ok o => "ok " ++ (if o.isEmpty then "-" else toHex o)
+    | _, _, _, _, _ => "bad-op"
   | _ => "bad-op"
 
 def modeOps : List (String × (List String → String)) := [("mh", opModeHist), ("ms", opModeStream)]
